@@ -267,7 +267,9 @@ func (r *Result) Normal() bool {
 
 // Timeout reports the product's own watchdog output.
 func (r *Result) Timeout() bool {
-	return r.BlackBox && r.Exit == 1 && (r.Stdout == "timeout\n" || strings.HasSuffix(r.Stdout, "\ntimeout\n"))
+	// the watchdog goroutine prints its line while main may still be printing
+	// records: the line can be anywhere in the output
+	return r.BlackBox && r.Exit == 1 && (strings.HasPrefix(r.Stdout, "timeout\n") || strings.Contains(r.Stdout, "\ntimeout\n"))
 }
 
 func (r *Result) Crashed() bool {
